@@ -288,6 +288,7 @@ def run(repo: Repo, ctx) -> None:
     _r9(repo, ctx)
     dep_tables_rule(repo, ctx, 'C11.R9')
     _r10(repo, ctx)
+    _r13(repo, ctx)
     # ---- R8 -------------------------------------------------------------------
     from . import c20
     c20.run(repo, _Sub(ctx, 'C11.R8'))
@@ -1058,3 +1059,51 @@ class _Sub:
 class _B:
     def __init__(self, body):
         self.body = body
+
+
+
+def _r13(repo, ctx):
+    """C11.R13 the ancestors index of the SDL loader has one writer.
+    `get_ancestors` memoises into it and treats an entry as final; anything
+    else that puts an entry there (a placeholder for a base declared further
+    down) is taken for a computed result, so whether a type's ancestors are
+    complete depends on where its parent is written in the document."""
+    ctx.floor('C11.R13', 2)
+    m = repo.module(DECL)
+    n = 0
+    for f in repo._funcs_of(m):
+        for x in ast.walk(f.node):
+            tgt = None
+            if isinstance(x, (ast.Assign, ast.AugAssign)):
+                for t in (x.targets if isinstance(x, ast.Assign)
+                          else [x.target]):
+                    if isinstance(t, ast.Subscript) and norm(
+                            t.value).split('.')[-1] == 'ancestors':
+                        tgt = norm(t)
+            elif isinstance(x, ast.Call) and isinstance(
+                    x.func, ast.Attribute) and x.func.attr in (
+                    'setdefault', 'update', 'pop', 'clear', '__setitem__') \
+                    and norm(x.func.value).split('.')[-1] == 'ancestors':
+                tgt = norm(x)[:50]
+            if tgt is None:
+                continue
+            n += 1
+            top = f
+            while top.parent is not None:
+                top = top.parent
+            rhs_ok = True
+            if isinstance(x, ast.Assign) and top.name != 'get_ancestors':
+                rhs_ok = isinstance(x.value, ast.Call) and call_name(
+                    x.value) == 'get_ancestors'
+            ok = top.name == 'get_ancestors' or (
+                isinstance(x, ast.Assign) and rhs_ok)
+            ctx.ob('C11.R13', f'{top.name}:writes-ancestors', ok,
+                   f'{top.name} writes `{tgt}` into the ancestors index '
+                   f'itself: get_ancestors takes any entry for a finished '
+                   f'result, so a type declared before its parent ends up '
+                   f'with a truncated ancestor set in some declaration '
+                   f'orders only', f'{f.module.rel()}:{x.lineno}',
+                   sample=tgt)
+    if n < 2:
+        raise AnalysisError('C11.R13: writers of the ancestors index not '
+                            'found')
